@@ -111,8 +111,18 @@
             (and (pair? y)
                 (equal? (car x) (car y))
                 (equal? (cdr x) (cdr y)))
-            (and (not (pair? y))
-                (eqv? x y))))
+            (if (vector? x)
+                (and (vector? y)
+                    (= (vector-length x) (vector-length y))
+                    (vector-equal-from? x y 0))
+                (and (not (pair? y))
+                    (eqv? x y)))))
+
+        (define (vector-equal-from? v w i)
+        (if (= i (vector-length v))
+            #t
+            (and (equal? (vector-ref v i) (vector-ref w i))
+                (vector-equal-from? v w (+ i 1)))))
 
         (define (list? x)
         (if (eq? x '())
